@@ -61,6 +61,9 @@ type AnteCase struct {
 
 const ethBlockURL = "/goat.goat.v1.MsgNewEthBlock"
 
+// typeBlockMsg as a cell's type index means the execution-block message (whatever its place in the sorted type list)
+const typeBlockMsg = 1000
+
 func isBridgeOrRelayer(url string) bool {
 	return strings.HasPrefix(url, "/goat.bitcoin.v1.") || strings.HasPrefix(url, "/goat.relayer.v1.")
 }
@@ -153,7 +156,13 @@ func (f *anteFixture) signerAccount(cls int, blk world.Block) (world.Account, bo
 // runAnteCell executes one cell and compares with the admission predicate.
 func (f *anteFixture) runAnteCell(c AnteCell) (*Failure, string, bool) {
 	n := f.sim.Node
-	url := f.urls[abs(c.Type)%len(f.urls)]
+	typeURL := func(i int) string {
+		if i == typeBlockMsg {
+			return ethBlockURL
+		}
+		return f.urls[abs(i)%len(f.urls)]
+	}
+	url := typeURL(c.Type)
 	mode := abs(c.Mode) % numModes
 	blk, ethTxs, err := f.sim.Begin(world.StepOpts{DT: 5 * time.Second, Proposer: -1})
 	if err != nil {
@@ -163,7 +172,7 @@ func (f *anteFixture) runAnteCell(c AnteCell) (*Failure, string, bool) {
 	acc, hasAccount := f.signerAccount(abs(c.Signer)%numSigners, blk)
 	urlsInTx := []string{url}
 	for _, e := range c.Extra {
-		urlsInTx = append(urlsInTx, f.urls[abs(e)%len(f.urls)])
+		urlsInTx = append(urlsInTx, typeURL(e))
 	}
 	var msgs []sdk.Msg
 	for _, u := range urlsInTx {
@@ -485,6 +494,15 @@ func genAnteCell(t *rapid.T, multi bool) AnteCell {
 			c.Extra = append(c.Extra, rapid.IntRange(0, 13).Draw(t, "extraType"))
 		}
 		c.MultiSigner = rapid.IntRange(0, 5).Draw(t, "multiSigner") == 0
+		if rapid.IntRange(0, 9).Draw(t, "hiddenBlockMsg") == 0 {
+			// a later transaction of the block made of block messages only (or a block message beside a bridge message),
+			// signed by the block's proposer with the timeout the guard wants
+			eth := typeBlockMsg
+			if eth >= 0 {
+				c.Type, c.Extra, c.Signer, c.Timeout, c.Memo, c.Sig, c.MultiSigner = eth, []int{eth}, sgBlockProposer, 2, 0, 0, false
+				c.Mode = rapid.SampledFrom([]int{modeProcess, modeProcess, modeFinalize, modePrepare}).Draw(t, "hiddenMode")
+			}
+		}
 	}
 	return c
 }
